@@ -70,6 +70,15 @@ pub mod parser {
             if padding == 0 {
                 return Err(RtcpParseError::InvalidPadding);
             }
+
+            // the padding can not extend into the fixed part of the packet
+            let min_len = P::MIN_PACKET_LEN + padding as usize;
+            if packet.len() < min_len {
+                return Err(RtcpParseError::Truncated {
+                    expected: min_len,
+                    actual: packet.len(),
+                });
+            }
         }
 
         Ok(())
